@@ -187,6 +187,16 @@ Proof.
   exfalso. eapply (nodup_app_disj _ _ c Hd); [exact (Hch c E)|eapply lookup_in_ids; exact L].
 Qed.
 
+Lemma live_released s f l :
+  (forall j, f j <> sk s j -> In j (ids (ixes s))) -> (forall j, f j = Open -> sk s j = Open) ->
+  live_inv s -> live_inv (with_released s f l).
+Proof.
+  intros Hch Hop [Hs Hd Hl]. constructor; [apply ok_with_released; assumption|exact Hd|].
+  intros k c L. cbn [with_released cxes sk] in *. pose proof (Hl k c L) as Ho.
+  destruct (sock_eq_dec (f c) (sk s c)) as [E|E]; [rewrite E; exact Ho|].
+  exfalso. eapply (nodup_app_disj _ _ c Hd); [exact (Hch c E)|eapply lookup_in_ids; exact L].
+Qed.
+
 Lemma close_fold_changes (l : alist) : forall f j,
   fold_left (fun f (p : Z * nat) => upd f (snd p) close1) l f j <> f j -> In j (ids l).
 Proof.
@@ -208,7 +218,7 @@ Lemma live_step tls m s o : cleaning m = true ->
   live_inv s -> live_inv (step tls m s o) /\ wedged (step tls m s o) = wedged s /\
   (m = CleanContinue -> hraised (step tls m s o) = hraised s).
 Proof.
-  intros Hm Hs. destruct o as [cas hs|ca|ca| |ca sc]; cbn [step].
+  intros Hm Hs. destruct o as [cas hs|ca|ca| |ca sc|ca]; cbn [step].
   - destruct tls.
     + destruct (fold_live accept_tls live_accept_tls (fun _ _ => eq_refl) cas s Hs) as [H1 W1].
       rewrite <- W1. rewrite <- (hraised_fold accept_tls (fun _ _ => eq_refl) cas s).
@@ -222,11 +232,11 @@ Proof.
       * intros j Hj. apply upd_open_inv in Hj; [tauto|apply shut1_not_open].
     + split; [|split; reflexivity]. destruct Hs as [H1 H2 H3]. constructor; [apply ok_err; exact H1|exact H2|exact H3].
   - destruct (lookup ca (ixes s)) as [i|] eqn:L.
-    + split; [|split; reflexivity]. apply live_sk_only; [| |exact Hs].
+    + split; [|split; reflexivity]. apply live_released; [| |exact Hs].
       * intros j Hj. apply upd_changes in Hj. subst. eapply lookup_in_ids. exact L.
       * intros j Hj. apply upd_open_inv in Hj; [tauto|intro; discriminate].
     + split; [|split; reflexivity]. destruct Hs as [H1 H2 H3]. constructor; [apply ok_err; exact H1|exact H2|exact H3].
-  - split; [|split; reflexivity]. apply live_sk_only; [| |exact Hs].
+  - split; [|split; reflexivity]. apply live_released; [| |exact Hs].
     + intros j Hj. eapply close_fold_changes. exact Hj.
     + intros j Hj. eapply close_fold_open_inv. exact Hj.
   - pose proof (ok_step tls m s (RemoveIx ca sc) (li_ok _ Hs)) as Hok. cbn [step] in Hok.
@@ -238,6 +248,10 @@ Proof.
         apply Nat.eqb_eq in E. subst. exfalso.
         eapply (nodup_app_disj _ _ i H2); [eapply lookup_in_ids; exact L|eapply lookup_in_ids; exact L'].
     + split; [|split; reflexivity]. destruct Hs as [H1 H2 H3]. constructor; [apply ok_err; exact H1|exact H2|exact H3].
+  - destruct (lookup ca (ixes s)) as [i|] eqn:L; [|split; [exact Hs|split; reflexivity]].
+    split; [|split; reflexivity]. apply live_sk_only; [| |exact Hs].
+    + intros j Hj. apply upd_changes in Hj. subst. eapply lookup_in_ids. exact L.
+    + intros j Hj. apply upd_open_inv in Hj; [tauto|intro x; destruct x; discriminate].
 Qed.
 
 Lemma live_run tls m ops : cleaning m = true ->
